@@ -76,7 +76,7 @@ def symbolic(prog):
 
 def split_layout(prog):
     used = sorted(set(r for ins in prog for r in ins[1] if r in PR.PRELUDE))
-    spare = [r for r in ('V1', 'S1', 'M1', 'V0') if r not in used][0]
+    spare = [r for r in ('V1', 'S1', 'M1', 'V0', 'S0', 'M0', 'T1', 'T0') if r not in used][0]
     names = used + [spare]
     shapes = [np.shape(PR.PRELUDE[r](np.zeros(NX))) for r in names]
     return names, shapes
